@@ -194,11 +194,10 @@ def Dur.roundNoRel (d : Dur) (raw : RawOptions) : Out Dur := do
   let o ← fromDurationOptions raw d.defaultLargestUnit
   if d.roundIsNoop o then .ok d else d.roundNoRelSlow o
 
-/-- `DurationTotal::new(ns, unit).to_fractional_total()`: fl(fl(q) + fl(fl(r) / fl(unit))). -/
-def durationTotal (ns : Int) (unit : Nat) : F64.Dyadic :=
-  let q := ns / (unit : Int)
-  let r := ns % (unit : Int)
-  F64.add (F64.ofIntD q) (F64.ofRat r unit)
+/-- `DurationTotal::new(ns, unit).to_fractional_total()`: the double nearest to `ns / unit`, rounded once (after the
+    fix; the code's three cases - exact operands, integer part with a sticky bit, 64 fraction bits with a sticky bit -
+    are tied to this by the correspondence run). -/
+def durationTotal (ns : Int) (unit : Nat) : F64.Dyadic := F64.ofRat ns unit
 
 /-- `Duration::total_with_provider(unit, None, _)` (after the fix: days count 24 h). -/
 def Dur.totalNoRel (d : Dur) (unit : TUnit) : Out F64.Dyadic :=
